@@ -77,7 +77,8 @@ def run_one(pid, m, tests):
 def main():
     args = sys.argv[1:]
     tests = "--tests" in args
-    args = [a for a in args if a != "--tests"]
+    norefs = "--no-refactors" in args   # the refactorings are also covered, one scratch copy per patch, by bin/refmatrix.sh
+    args = [a for a in args if a not in ("--tests", "--no-refactors")]
     jobs = 4
     if "--jobs" in args:
         i = args.index("--jobs")
@@ -108,7 +109,7 @@ def main():
             if os.path.exists(pf):
                 muts.append({"name": "seeded/" + os.path.basename(sd), "patch": pf, "expect": pid + "."})
         # behaviour-preserving refactorings (independently produced): every check must stay silent on them
-        for rf in sorted(glob.glob(os.path.join(VERIF, "refactors", "*.diff"))):
+        for rf in ([] if norefs else sorted(glob.glob(os.path.join(VERIF, "refactors", "*.diff")))):
             muts.append({"name": "refactor/" + os.path.basename(rf)[:-5], "patch": rf, "breaks": False})
         if only:
             muts = [m for m in muts if only in m["name"]]
